@@ -1,5 +1,6 @@
 import GomlVerif.Model.Syntax
 import GomlVerif.Model.Mangle
+import GomlVerif.Gen.MonoLookup
 /-!
 Model of `crates/compiler/src/mono.rs` over the unified expression language.
 
@@ -280,14 +281,20 @@ def inherentIndex (F : List Fn) (base method : String) : Option Fn :=
      | some (b, m) => b == base && m == method
      | none => false)).getLast?
 
-/-- callee lookup of the `ECall` case -/
-def findCallee (F : List Fn) (fname : String) : Option Fn :=
-  match findFn F fname with
-  | some f => some f
-  | none =>
+/-- one of the two lookups of the `ECall` case -/
+def lookupBy (F : List Fn) (fname : String) : Gen.CalleeLookup → Option Fn
+  | .asSpelled => findFn F fname
+  | .inherentIndex =>
     match parseInherent fname with
     | some (b, m) => inherentIndex F b m
     | none => none
+
+/-- callee lookup of the `ECall` case: the lookups in the order `Gen.calleeLookupOrder` (regenerated from
+mono.rs: the name as Core spells it first, `inherent_method_index` only when that fails — so with
+`impl[T] B[T]` and `impl B[int32]` both defining `m`, a call named `inherent#B#B[int32]#m` keeps meaning
+the exact impl, as the typer resolved it) -/
+def findCallee (F : List Fn) (fname : String) : Option Fn :=
+  Gen.calleeLookupOrder.findSome? (lookupBy F fname)
 
 def primTy : Prim → Ty
   | .unit => .unit
